@@ -1,6 +1,9 @@
 package compress
 
-import "io"
+import (
+	"io"
+	"strings"
+)
 
 type CompressReader interface {
 	io.ReadCloser
@@ -20,4 +23,17 @@ func NewCompressReader(body io.ReadCloser, contentEncoding string) CompressReade
 		return NewZstdReader(body)
 	}
 	return nil
+}
+
+// ContentEncoding returns the Content-Encoding of a response as one field value.
+// Several Content-Encoding field lines are one comma-separated list of codings
+// (RFC 9110, section 5.3), exactly like the same codings written on one line, so
+// they are joined: a response that stacks codings over several lines must not be
+// mistaken for one that only applied the coding of its first line.
+func ContentEncoding(h map[string][]string) string {
+	vs := h["Content-Encoding"]
+	if len(vs) == 1 {
+		return vs[0]
+	}
+	return strings.Join(vs, ", ")
 }
